@@ -1101,3 +1101,21 @@ Definition nl_in_brackets_statement_level (T : ptab) : Prop :=
   | Panic, Panic => True
   | _, _ => False
   end.
+
+(* CORRECTION (see Props/C14.v, C14_nl_in_brackets_statement_level_same_fuel_refuted): the statement above asks
+   for the same outcome KIND at the same fuel, and that is false.  After a syntax error inside a `do ... end`
+   block the parser resumes at the next newline token; a newline inside brackets is such a token in one input
+   and absent from the other, so the two runs go round the block loop a different number of times and reach a
+   different recursion depth: at some fuels one run is out of fuel while the other has already reported its
+   errors.  What the real parser (which has no fuel) satisfies is the statement with enough fuel on both
+   sides ([parse_fuel], ParserTotal.v), where [Fuel] and [Panic] cannot occur: *)
+Definition nl_in_brackets_statement_settled_statement (T : ptab) : Prop :=
+  forall ts ts' f, insignificant_diff ts ts' -> frag ts -> frag ts' ->
+  (match ts with TComment :: _ => False | _ => True end) ->
+  (match ts' with TComment :: _ => False | _ => True end) ->
+  parse_fuel ts <= f -> parse_fuel ts' <= f ->
+  match parse_statement T f ts, parse_statement T f ts' with
+  | Ok (s, _), Ok (s', _) => s = s'
+  | Err _ _, Err _ _ => True
+  | _, _ => False
+  end.
